@@ -50,6 +50,22 @@ def check_simulation_result(ins, outs, env, acc):
                         ok = False
             if not ok:
                 acc.violation("indexing_inconsistent", case, None)
+            # read-only views (dataframe with two thresholds, printing) must leave every access path unchanged
+            import contextlib, io
+            if len(ins) + len(outs) <= 3 or (len(ins) * 7 + len(outs) * 3 + sum(map(sum, outs))) % 11 == 0:
+                with contextlib.redirect_stdout(io.StringIO()):
+                    r.display_as_dataframe()
+                    r.display_as_dataframe(threshold=0.3, conv_to_probability=(vlabel == "injective"))
+                    r.print_outputs()
+                acc.tick("display_calls")
+            ok2 = np.array_equal(r.array, vals)
+            for a, i in enumerate(ins):
+                for b, o in enumerate(outs):
+                    if r[S(list(i)), S(list(o))] != vals[a, b] or r[S(list(i))][S(list(o))] != vals[a, b]:
+                        ok2 = False
+            if not ok2:
+                acc.violation("result_changed_by_displaying_it", case, None)
+                continue
             for kind in ("threshold", "parity"):
                 for inv in (False, True):
                     fn = r.apply_threshold_mapping if kind == "threshold" else r.apply_parity_mapping
@@ -115,6 +131,11 @@ def check_sampling_result(items, env, acc):
     for k, v in items:
         if r[S(list(k))] != v:
             acc.violation("sampling_result_indexing", case, None)
+    import contextlib, io
+    with contextlib.redirect_stdout(io.StringIO()):
+        r.display_as_dataframe(); r.print_outputs()
+    if dict(r) != d:
+        acc.violation("result_changed_by_displaying_it", case, None)
     for kind in ("threshold", "parity"):
         for inv in (False, True):
             fn = r.apply_threshold_mapping if kind == "threshold" else r.apply_parity_mapping
